@@ -17,9 +17,6 @@ structure St where
   kind : String := "mem"
   start : Nat := 0
 
-def keysOf (cs : List Rcd) : List Nat :=
-  cs.foldl (fun acc c => if acc.contains (opId c.op) then acc else acc ++ [opId c.op]) []
-
 def stepLine (s : St) (n : Nat) (ln : Line) : St × List String :=
   match ln.op with
   | "reset" => ({ kind := ln.args.getD 0 "mem", start := n }, diff n ln ["ok"] ++ [s!"COV reset.{ln.args.getD 0 "mem"}"])
@@ -40,11 +37,13 @@ def stepLine (s : St) (n : Nat) (ln : Line) : St × List String :=
       ({ s with calls := rc :: s.calls }, (if body.op == "wf" then ["COV wf.batched-write"] else []))
   | "end" =>
     let cs := s.calls.reverse
+    -- hypotheses of Props.C38.linearizable_of_per_key (the per-key decomposition below is a theorem, given these)
     let wellStamped := cs.all fun c => c.inv < c.ret
+    let allKeyed := cs.all fun c => keyed c.op
     let msgs := (keysOf cs).flatMap fun k =>
-      let sub := cs.filter fun c => opId c.op == k
+      let sub := subHistory cs k
       let overlap := sub.any fun a => sub.any fun b => a.line != b.line && a.inv < b.ret && b.inv < a.ret
-      let stepf := fun (st : Vol) (op : Op) => let (st', o) := step st op; (st', mToks o)
+      let stepf := modelStep
       match linearize stepf strict (Vol.init (0, 0)) sub (200000 : Nat) with
       | .found => ["COV key.linearized"] ++ (if overlap then ["COV key.with-overlapping-calls"] else [])
       | .notFound =>
@@ -52,7 +51,8 @@ def stepLine (s : St) (n : Nat) (ln : Line) : St × List String :=
           then "history/http-delete-read-then-delete-not-atomic" else "history/not-linearizable"
         [specfail n cls s!"key={k} history-starts-at-line={s.start} calls={sub.length}"]
       | .budget => [s!"DIFF {n} linearization-search-budget-exhausted key={k}"]
-    ({ kind := s.kind }, diff n ln ["ok"] ++ msgs ++ (if wellStamped then [] else [s!"DIFF {n} bad-stamps"]) ++ ["COV history"])
+    ({ kind := s.kind }, diff n ln ["ok"] ++ msgs ++ (if wellStamped then [] else [s!"DIFF {n} bad-stamps"]) ++
+      (if allKeyed then [] else [s!"DIFF {n} global-toggle-in-history"]) ++ ["COV history"])
   | _ => (s, [s!"DIFF {n} unknown-op {ln.op}"])
 
 end DrvC38
